@@ -1198,8 +1198,26 @@ func genHistory(r *lib.Rand, tier, stream string, i int) History {
 	if len(pool) == 0 {
 		return History{Kind: "static", Item: "none"}
 	}
-	name := pool[i%len(pool)]
-	round := i / len(pool)
+	// round 0 visits every message type once (maximal value); later rounds skip the types that
+	// have no field at all (MsgXxxResponse {}), whose only value is the empty one
+	name := ""
+	round := 0
+	if i < len(pool) {
+		name = pool[i]
+	} else {
+		var rich []string
+		for _, n := range pool {
+			if len(x.msgs[n].Fields) > 0 {
+				rich = append(rich, n)
+			}
+		}
+		if len(rich) == 0 {
+			rich = pool
+		}
+		j := i - len(pool)
+		name = rich[j%len(rich)]
+		round = 1 + j/len(rich)
+	}
 	g := &gen{r: r, x: x, mode: stream}
 	switch round % 4 {
 	case 0:
